@@ -1,5 +1,5 @@
 """C02 — acknowledged writes survive a crash at any point; batches are all-or-nothing."""
-from gen import lib, crash, codec, recover, proto
+from gen import dbh, lib, crash, codec, recover, proto, c12, sched
 
 PROP_FILE = "props/C02.v"
 WANT = ("recover", "post")
@@ -55,10 +55,19 @@ def suites(tier, seed, rng):
     return [crash.CrashSuite(corpus() + gen_cases(tier, rng), WANT),
             recover.RecoverSuite(gen_recover(tier, rng)),
             proto.ProtoSuite(gen_proto(tier, rng)),
-            codec.CodecSuite("codec", codec.gen(tier, rng, ("B",)), lambda i, s, c: True)]
+            codec.CodecSuite("codec", codec.gen(tier, rng, ("B",)), lambda i, s, c: True),
+            dbh.DbSuite(dbh.gen_reuse_boundary(tier, rng)),
+            lib.SuiteRun("log", c12.gen_reopen(tier, rng), c12.prop_ok),
+            sched.SchedSuite(sched.gen_cases(tier, rng, {"walgc"}))]
 
 
 def replay_suites(rp):
+    if rp.get("suite") == "sched":
+        return [sched.SchedSuite([rp["case"]])]
+    if rp.get("suite") == "dbhist":
+        return [dbh.DbSuite([rp["case"]])]
+    if rp.get("suite") == "log":
+        return [lib.SuiteRun("log", [rp["case"]], c12.prop_ok)]
     if rp.get("suite") == "codec":
         return [codec.CodecSuite("codec", [rp["case"]], lambda i, s, c: True)]
     if rp.get("suite") == "recover":
@@ -69,6 +78,12 @@ def replay_suites(rp):
 
 
 def still_fails(suite, case, workdir):
+    if suite == "sched":
+        return sched.still_fails(case, workdir)
+    if suite == "dbhist":
+        return dbh.still_fails(case, workdir)
+    if suite == "log":
+        return c12.still_fails(suite, case, workdir)
     if suite == "proto":
         return proto.still_fails(case, workdir)
     if case.count(" # ") != 2:
@@ -79,6 +94,8 @@ def still_fails(suite, case, workdir):
 
 
 def shrink(f, workdir):
+    if f["suite"] in ("dbhist", "log", "codec", "sched"):
+        return lib.shrink_case(f["suite"], f["case"], lambda c: still_fails(f["suite"], c, workdir)), f.get("detail", "")
     if f["suite"] == "proto":
         return lib.shrink_case("proto", f["case"], lambda c: proto.still_fails(c, workdir)), f.get("detail", "")
     if f["suite"] == "recover":
@@ -87,12 +104,20 @@ def shrink(f, workdir):
 
 
 def nontrivial(suite, case):
+    if suite == "log":
+        return c12.nontrivial(suite, case)
     return " P" in case or " B" in case
 
 
 def classify(suite, case):
     if suite == "codec":
         return "codec:batch"
+    if suite == "dbhist":
+        return "dbhist:reuse-across-block-boundary"
+    if suite == "sched":
+        return "sched:crash-image-between-rotation-and-flush"
+    if suite == "log":
+        return "log:reopened-writer"
     if suite == "proto":
         return "proto:reopens=%d" % min(case.count(" O"), 3)
     if suite == "recover":
